@@ -237,8 +237,30 @@ HARNESS(clean_mmultiscripts_total_and_legal, 12) {
 
 
 def api_mm(vals=None, out=None):
-    res = mcprobe([("mathml", "<math><mmultiscripts><mi>x</mi><mphantom><mi>y</mi></mphantom><mn>2</mn></mmultiscripts></math>"), ("mathml", "<math><mi>z</mi></math>")])
-    return res[0][0] not in ("OK", "ERR"), {"script": "set_mathml(mmultiscripts whose subscript is an mphantom: the child is deleted while cleaning)", "results": res}
+    import re
+    if out is not None and "REPLAY-PANIC" in out and "index out of bounds" in out:
+        res = mcprobe([("mathml", "<math><mmultiscripts><mi>x</mi><mphantom><mi>y</mi></mphantom><mn>2</mn></mmultiscripts></math>"), ("mathml", "<math><mi>z</mi></math>")])
+        return res[0][0] not in ("OK", "ERR"), {"script": "set_mathml(mmultiscripts whose subscript is an mphantom: the child is deleted while cleaning)", "results": res}
+    # arity role: scripts that the cleaning deletes (mphantom) at different places, with and without mprescripts
+    shapes = ["<mi>x</mi><mn>1</mn><mphantom><mn>2</mn></mphantom><mprescripts/><mn>3</mn><mn>4</mn>",
+              "<mi>x</mi><mphantom><mn>1</mn></mphantom><mn>2</mn><mprescripts/><mn>3</mn><mn>4</mn>",
+              "<mi>x</mi><mn>1</mn><mn>2</mn><mprescripts/><mn>3</mn><mphantom><mn>4</mn></mphantom>",
+              "<mi>x</mi><mn>1</mn><mphantom><mn>2</mn></mphantom>"]
+    bad = []
+    for sh in shapes:
+        res = mcprobe([("mathml", "<math><mmultiscripts>" + sh + "</mmultiscripts></math>")])
+        if res[0][0] != "OK":
+            continue
+        m = re.search(r"<mmultiscripts[^>]*>(.*)</mmultiscripts>", res[0][1], re.S)
+        if not m:
+            continue
+        kids = re.findall(r"<(m\w+|none)\b[^>]*?(?:/>|>[^<]*</\1>)", m.group(1))
+        n = len(kids)
+        pre = [i for i, k in enumerate(kids) if k == "mprescripts"]
+        legal = (not pre and n % 2 == 1) or (len(pre) == 1 and pre[0] % 2 == 1 and n % 2 == 0)
+        if not legal:
+            bad.append({"input": sh, "children": kids})
+    return bool(bad), {"script": "set_mathml(mmultiscripts with an mphantom script at several positions): scripts must stay paired (odd child count without, even with mprescripts at an odd index)", "illegal": bad}
 
 
 def mm_lemma(run):
